@@ -122,6 +122,18 @@ _md_specials_pat = re.compile(r"^([-*+]|#+|=+|-{2,}|\*{3,}|_{3,})$|^>|^`{3,}|^~{
 _md_numeral_pat = re.compile(r"^[0-9]+[.)]$")
 
 
+# A first word that is block syntax when it is alone on its line: a thematic break (---, ***,
+# ___; also -- and **, which complete a rule directly after a list marker) or a code fence
+# (``` or ~~~, possibly with more text attached).
+_md_alone_specials_pat = re.compile(r"^(-{2,}|\*{2,}|_{3,})$|^`{3,}[^`]*$|^~{3,}")
+
+
+def _escape_first_word_left_alone(word: str) -> str:
+    if _md_alone_specials_pat.match(word):
+        return "\\" + word
+    return word
+
+
 def markdown_escape_word(word: str) -> str:
     """
     Prepends a backslash to a word if it matches markdown patterns
@@ -201,6 +213,10 @@ def wrap_paragraph_lines(
                 line = " ".join(current_line)
                 if drop_whitespace:
                     line = line.strip()
+                if is_markdown and first_line and len(current_line) == 1:
+                    # The first word of the paragraph ended up alone on its line. Followed by
+                    # other words it was plain text, but alone it may be a rule or a fence.
+                    line = _escape_first_word_left_alone(line)
                 lines.append(line)
                 first_line = False
             else:
